@@ -125,8 +125,9 @@ def run(ctx):
     nd = 0
     for ln, a, b in zip(acc, ai, am):
         a = core.split_side(a)[0]
-        ctx.count('accessor_model', 'agree' if a == b else 'differ')
-        if a != b:
+        # the property speaks about hellos that parse: which error a non-hello gets is not its business
+        ctx.count('accessor_model', 'agree' if common.proj_value(a) == common.proj_value(b) else 'differ')
+        if common.proj_value(a) != common.proj_value(b):
             nd += 1
             ctx.cov['model_vs_impl_disagreements'] += 1
             if nd <= 3 and not nv:
